@@ -288,7 +288,7 @@ class E(CTLS.E, StateFormula):
             neg_sf1 = LNot(sf1)
             neg_sf0 = LNot(sf0)
 
-            return Or(EU(sf1, And(Not(Or(neg_sf0, neg_sf1))), fairAP),
+            return Or(EU(sf1, And(Not(Or(neg_sf0, neg_sf1)), fairAP)),
                       EG(And(sf1, fairAP)))
 
         raise TypeError('{} is not a CTL formula'.format(self))
